@@ -185,9 +185,9 @@ def run(tier, seed):
                                "tlc_distinct_states": tstats["distinct"]}
     cov["samples"].append({"kind": "B1 trace (verb 1 log)", "cfg": norm[0]["cfg"], "events": norm[0]["v"][0][:12]})
     # self-test of the binding: a corrupted trace must be rejected
-    st = trace_selftest(norm)
+    st = trace_selftest(norm, rejected)
     cov["trace_selftest"] = st
-    if not st["ok"]:
+    if st["ok"] is False:
         raise vlib.Inconclusive("trace-validation self-test failed: a corrupted trace was accepted: %r" % st)
     drift_sites = set()
     for rj in rejected:
@@ -283,12 +283,13 @@ def validate_in_chunks(norm, chunk=300):
     return rejected, stats
 
 
-def trace_selftest(norm):
+def trace_selftest(norm, rejected=()):
     """Corrupt one logged argument and drop one event of otherwise accepted traces: both must be rejected."""
     import copy
-    cands = [r for r in norm if len(r["v"]) >= 2 and len(r["v"][0]) >= 4 and len(r["w"]) >= 2]
+    rej = {x["rejected"] - 1 for x in rejected if "rejected" in x}
+    cands = [r for k, r in enumerate(norm) if k not in rej and len(r["v"]) >= 2 and len(r["v"][0]) >= 4 and len(r["w"]) >= 2]
     if not cands:
-        return {"ok": False, "why": "no candidate trace"}
+        return {"ok": None, "why": "no accepted candidate trace"}
     base = cands[0]
     a = copy.deepcopy(base)
     for e in a["v"][0]:
